@@ -20,14 +20,14 @@ Definition mkO (pto : Z) (snr : option Z) (tl : option (list pS)) (cont : bool) 
 Definition mkP (nr start : Z) (ases : list asOut) : period := {| pd_nr := nr; pd_start := start; pd_as := ases |}.
 
 Inductive c06case :=
-| CLive (id : Z) (widen : bool) (pph segDurMS : Z) (mode : mpdType) (cont : bool) (startS snr now : Z) (stopS : option Z) (tsbdMS : Z) (ases : list asIn)
+| CLive (id : Z) (ng widen : bool) (pph segDurMS : Z) (mode : mpdType) (cont : bool) (startS snr now : Z) (stopS : option Z) (tsbdMS : Z) (ases : list asIn)
         (o_status : Z) (o_periods : list period) (o_publish : option Z)
-| CSplit (id : Z) (widen : bool) (pph segDurMS : Z) (mode : mpdType) (cont : bool) (astMS snr startTimeMS now : Z) (ases : list asIn)
+| CSplit (id : Z) (ng widen : bool) (pph segDurMS : Z) (mode : mpdType) (cont : bool) (astMS snr startTimeMS now : Z) (ases : list asIn)
          (o_status : Z) (o_periods : list period)
 | CReduce (id : Z) (es : list pS) (startNr : option Z) (tsc ps pe : Z) (o_S : list pS) (o_nr : Z).
 
 Definition c_id (c : c06case) : Z :=
-  match c with CLive id _ _ _ _ _ _ _ _ _ _ _ _ _ _ => id | CSplit id _ _ _ _ _ _ _ _ _ _ _ _ => id | CReduce id _ _ _ _ _ _ _ => id end.
+  match c with CLive id _ _ _ _ _ _ _ _ _ _ _ _ _ _ _ => id | CSplit id _ _ _ _ _ _ _ _ _ _ _ _ _ => id | CReduce id _ _ _ _ _ _ _ => id end.
 
 Definition optZ_eqb (a b : option Z) : bool :=
   match a, b with Some x, Some y => x =? y | None, None => true | _, _ => false end.
@@ -53,16 +53,16 @@ Definition statusOf {A} (r : res A) : Z :=
 
 Definition case_ok (c : c06case) : bool :=
   match c with
-  | CLive _ w pph seg mode cont startS snr now stopS tsbdMS ases st ops opub =>
-    let r := livePeriodsStop w 1 {| startS := startS; startNr := snr; tsbdS := 0; ato := Some 0 |} now stopS tsbdMS
+  | CLive _ g w pph seg mode cont startS snr now stopS tsbdMS ases st ops opub =>
+    let r := livePeriodsStop g w 1 {| startS := startS; startNr := snr; tsbdS := 0; ato := Some 0 |} now stopS tsbdMS
                          pph seg mode cont ases in
     (statusOf r =? st) &&
     match r with
     | Ok (ps, pub) => list_eqb period_eqb ps ops && optZ_eqb pub opub
     | _ => true
     end
-  | CSplit _ w pph seg mode cont astMS snr stMS now ases st ops =>
-    let r := splitPeriod w pph seg mode cont astMS snr stMS now ases in
+  | CSplit _ g w pph seg mode cont astMS snr stMS now ases st ops =>
+    let r := splitPeriod g w pph seg mode cont astMS snr stMS now ases in
     (statusOf r =? st) &&
     match r with Ok ps => list_eqb period_eqb ps ops | _ => true end
   | CReduce _ es snr tsc ps pe oS onr =>
@@ -80,12 +80,12 @@ Inductive c06view :=
 
 Definition model_view (c : c06case) : c06view :=
   match c with
-  | CLive _ w pph seg mode cont startS snr now stopS tsbdMS ases _ _ _ =>
-    let r := livePeriodsStop w 1 {| startS := startS; startNr := snr; tsbdS := 0; ato := Some 0 |} now stopS tsbdMS
+  | CLive _ g w pph seg mode cont startS snr now stopS tsbdMS ases _ _ _ =>
+    let r := livePeriodsStop g w 1 {| startS := startS; startNr := snr; tsbdS := 0; ato := Some 0 |} now stopS tsbdMS
                          pph seg mode cont ases in
     match r with Ok (ps, pub) => VPeriods 200 ps pub | _ => VPeriods (statusOf r) [] None end
-  | CSplit _ w pph seg mode cont astMS snr stMS now ases _ _ =>
-    let r := splitPeriod w pph seg mode cont astMS snr stMS now ases in
+  | CSplit _ g w pph seg mode cont astMS snr stMS now ases _ _ =>
+    let r := splitPeriod g w pph seg mode cont astMS snr stMS now ases in
     match r with Ok ps => VPeriods 200 ps None | _ => VPeriods (statusOf r) [] None end
   | CReduce _ es snr tsc ps pe _ _ =>
     let '(outS, nr) := reduceS es snr tsc ps pe in VReduce (map ofEntry outS) nr
